@@ -24,6 +24,7 @@ pub mod c16;
 pub mod c17;
 pub mod c18;
 pub mod c19;
+pub mod c20;
 
 pub struct PropEntry {
   pub id: &'static str,
@@ -55,6 +56,7 @@ pub fn registry() -> Vec<PropEntry> {
     PropEntry { id: "C17", meta: c17::meta, run: c17::run, replay: c17::replay, profiles: &["release", "chk"] },
     PropEntry { id: "C18", meta: c18::meta, run: c18::run, replay: c18::replay, profiles: &["release", "chk", "bmi2"] },
     PropEntry { id: "C19", meta: c19::meta, run: c19::run, replay: c19::replay, profiles: &["release", "chk"] },
+    PropEntry { id: "C20", meta: c20::meta, run: c20::run, replay: c20::replay, profiles: &["release"] },
   ]
 }
 
